@@ -220,8 +220,9 @@ def observable(maxops):
         obs = _Obs()
         model = []
         nops = sx.choice("nops", maxops + 1)
+        cur = 0
         for k in range(nops):
-            op = sx.choice(f"op{k}", 5)
+            op = sx.choice(f"op{k}", 6)
             if op < 2:
                 a.watch(obs[op])
                 if op not in model:
@@ -238,11 +239,20 @@ def observable(maxops):
                     except ValueError:
                         ok = True
                     sx.check(ok, "obs.unwatch-unknown-raises")
-            else:
+            elif op == 4:
                 a.unwatch_all()
                 model = []
+            else:
+                # an update in the middle of the script that really changes the value
+                del calls[:]
+                nb = (st.status_block[0] + 1) % 256          # a value different from the current one
+                from sx.core import Vec
+                st.replace_status_block_segment(0, bytes([nb]) if isinstance(nb, int) else Vec([nb]))
+                sx.check(calls == model, "obs.callees-are-registered-set", lambda: f"mid-script {calls} vs {model}")
+        del calls[:]
+        old0 = st.status_block[0]
         st.replace_status_block_segment(0, new)
-        differs = old[0] != new[0]
+        differs = old0 != new[0]
         if bool(differs):
             sx.check(calls == model, "obs.callees-are-registered-set", lambda: f"{calls} vs {model}")
         else:
